@@ -68,23 +68,24 @@ theorem txRecord_WF (V : ValueRT) (x : Rec)
   simp only [L.WF, attrBytes, List.append_nil, attrWF]
   exact ⟨by decide, by decide, hl, txBody_WF V x [] hc hm hp hf, trivial, trivial⟩
 
-/-- the `carried` projection of a TxRecord: what `Read` assigns in a fresh record -/
+/-- the `carried` projection of a TxRecord: exactly which fields `Read` assigns (`lookup = some`), with
+    what value, and which it leaves alone (`lookup = none`) -/
 def TxCarried (x : Rec) (e : Env) : Prop :=
-  (∀ nm ∈ txPlain, e.get nm = x nm) ∧
+  (∀ nm ∈ txPlain, e.lookup nm = some (x nm)) ∧
   (if (x "Mtid").toInt ≠ 0
-    then e.get "Mtid" = x "Mtid" ∧ e.get "Mdepth" = x "Mdepth" ∧ e.get "Mcaller" = x "Mcaller"
+    then e.lookup "Mtid" = some (x "Mtid") ∧ e.lookup "Mdepth" = some (x "Mdepth") ∧ e.lookup "Mcaller" = some (x "Mcaller")
     else e.lookup "Mtid" = none ∧ e.lookup "Mdepth" = none ∧ e.lookup "Mcaller" = none) ∧
   (if (x "McallerPcode").toInt ≠ 0
-    then e.get "McallerPcode" = x "McallerPcode" ∧ e.get "McallerOkind" = x "McallerOkind" ∧
-         e.get "McallerOid" = x "McallerOid" ∧ e.get "McallerSpec" = x "McallerSpec" ∧
-         e.get "McallerUrl" = x "McallerUrl" ∧ e.get "MthisSpec" = x "MthisSpec"
+    then e.lookup "McallerPcode" = some (x "McallerPcode") ∧ e.lookup "McallerOkind" = some (x "McallerOkind") ∧
+         e.lookup "McallerOid" = some (x "McallerOid") ∧ e.lookup "McallerSpec" = some (x "McallerSpec") ∧
+         e.lookup "McallerUrl" = some (x "McallerUrl") ∧ e.lookup "MthisSpec" = some (x "MthisSpec")
     else e.lookup "McallerPcode" = none ∧ e.lookup "McallerOkind" = none ∧ e.lookup "McallerOid" = none ∧
          e.lookup "McallerSpec" = none ∧ e.lookup "McallerUrl" = none ∧ e.lookup "MthisSpec" = none) ∧
   (e.lookup "Fields" = match (x "Fields").toMapN with
                        | some (kv :: kvs) => some (.m (some (kv :: kvs)))
                        | _ => none) ∧
-  e.get "ErrorLevel" =
-    (if (x "ErrorLevel").toInt = 0 ∧ (x "Error").toInt ≠ 0 then .i 20 else x "ErrorLevel")
+  e.lookup "ErrorLevel" =
+    some (if (x "ErrorLevel").toInt = 0 ∧ (x "Error").toInt ≠ 0 then .i 20 else x "ErrorLevel")
 
 set_option maxRecDepth 8000 in
 theorem txRecord_carried (x : Rec) : TxCarried x (txRecord.expect x []) := by
